@@ -22,7 +22,7 @@ import os, re, ast, json, inspect, time
 import concurrent.futures as cf
 import cybuild
 
-FX_HIDDEN = os.environ.get("C25_FX_HIDDEN", "0") == "1"    # flip to "1" after applying
+FX_HIDDEN = os.environ.get("C25_FX_HIDDEN", "1") == "1"    # flip to "1" after applying
 #   proposed_fixes/C25-c_format_init_hidden_self_shifts_markers.diff (the model then runs the repaired variant)
 FORMATS = ["c", "python", "clinic"]
 DEFAULTS = ["1", "-2", "'s'", "None", "(1, 2)", "[3]", "2.5", "b'x'"]
